@@ -1600,6 +1600,46 @@ func c02Tables(m *c02Model, r2 *kit.Rule) {
 			neg = !neg
 			cond = ast.Unparen(u.X)
 		}
+		if id, isIdent := cond.(*ast.Ident); isIdent {
+			// `same := a.Hash == b.Hash; if same {` — a boolean local defined once
+			if o := kit.ObjOf(info, id); o != nil {
+				var def ast.Expr
+				n := 0
+				ast.Inspect(f.Body, func(x ast.Node) bool {
+					switch as := x.(type) {
+					case *ast.AssignStmt:
+						for i, l := range as.Lhs {
+							if kit.ObjOf(info, l) == o {
+								n++
+								if len(as.Lhs) == len(as.Rhs) {
+									def = as.Rhs[i]
+								}
+							}
+						}
+					case *ast.IncDecStmt:
+						if kit.ObjOf(info, as.X) == o {
+							n++
+						}
+					case *ast.UnaryExpr:
+						if as.Op == token.AND && kit.ObjOf(info, as.X) == o {
+							n++
+						}
+					}
+					return true
+				})
+				if n == 1 && def != nil {
+					cond = ast.Unparen(def)
+					for {
+						u, ok := cond.(*ast.UnaryExpr)
+						if !ok || u.Op != token.NOT {
+							break
+						}
+						neg = !neg
+						cond = ast.Unparen(u.X)
+					}
+				}
+			}
+		}
 		be, ok := cond.(*ast.BinaryExpr)
 		if !ok || (be.Op != token.EQL && be.Op != token.NEQ) {
 			continue
